@@ -113,18 +113,11 @@ _TRACED: Dict[str, int] = {}
 _POLL_HEADS: Dict[Tuple[int, str], frozenset] = {}
 
 
-def _calls_sleep(node: ast.AST) -> bool:
-    for n in ast.walk(node):
-        if isinstance(n, ast.Call):
-            f = n.func
-            if (isinstance(f, ast.Name) and f.id == "sleep") or (isinstance(f, ast.Attribute) and f.attr == "sleep"):
-                return True
-    return False
-
-
 def _find_poll_heads(filename: str, fidx: int) -> None:
-    """Every `while` loop without a sleep in its body is a polling loop; its back-edge target line is recorded
-    under (file index, qualified function name)."""
+    """Every `while` loop is a candidate polling loop; its back-edge target line is recorded under (file index, qualified
+    function name).  Whether a round of it was a *sleep-less* polling round is decided at run time (the thread came back
+    to the loop head without having slept since its last visit), so helpers that sleep on the loop's behalf, and calls
+    that only sleep for some arguments (recv(block=False) never does), need no static analysis."""
     with open(filename) as fh:
         tree = ast.parse(fh.read())
 
@@ -136,11 +129,8 @@ def _find_poll_heads(filename: str, fidx: int) -> None:
                 q = qual + [ch.name]
                 heads = set()
                 for n in ast.walk(ch):
-                    if isinstance(n, ast.While) and not _calls_sleep(n):
-                        const_true = isinstance(n.test, ast.Constant) and bool(n.test.value)
-                        heads.add(n.lineno)          # 3.12: the back edge carries the line of the `while`
-                        if const_true:
-                            heads.add(n.body[0].lineno)   # interpreters that jump straight to the body
+                    if isinstance(n, ast.While):
+                        heads.add(n.lineno)          # 3.12: the back edge carries the line of the `while`, also for `while True`
                 if heads:
                     _POLL_HEADS[(fidx, ".".join(q))] = frozenset(heads)
                 visit(ch, q + ["<locals>"])
@@ -269,28 +259,77 @@ def _counting(base, extra=None):
     return type("Counting" + base.__name__.capitalize(), (base,), ns)
 
 
-CountingSet = _counting(set)
-CountingList = _counting(list)
-CountingDict = _counting(dict)
+import collections
+
+_CONTAINER_BASES = (set, list, dict, collections.deque)
+_COUNTING_TYPES: Dict[Any, type] = {}
+
+
+def _base_of(v) -> Optional[type]:
+    """the plain container type (set / list / dict / deque) an object is an instance of, None for anything else"""
+    for b in _CONTAINER_BASES:
+        if isinstance(v, b):
+            return b
+    return None
+
+
+def counting_type(base: type) -> type:
+    if base not in _COUNTING_TYPES:
+        _COUNTING_TYPES[base] = _counting(base)
+    return _COUNTING_TYPES[base]
 
 
 def _wrap_value(v):
-    return CountingList(v) if type(v) is list else v
+    """containers stored inside an instrumented dict (message queues) are instrumented too"""
+    b = _base_of(v)
+    if b is None or type(v).__name__.startswith("Counting"):
+        return v
+    if b is dict:
+        return _counting_dict_like(v)
+    if b is collections.deque:
+        return counting_type(b)(v, v.maxlen)
+    return counting_type(b)(v)
 
 
-def _cdd_missing(self, key):
-    v = CountingList()
-    dict.__setitem__(self, key, v)
-    return v
+def _counting_dict_like(orig: dict):
+    """counting replacement of a dict or defaultdict: values that are containers are wrapped when stored or created"""
+    factory = getattr(orig, "default_factory", None)
+
+    def missing(self, key):
+        if factory is None:
+            raise KeyError(key)
+        v = _wrap_value(factory())
+        dict.__setitem__(self, key, v)
+        return v
+
+    def setitem(self, key, value):
+        _touch()
+        dict.__setitem__(self, key, _wrap_value(value))
+
+    def setdefault(self, key, default=None):
+        _touch()
+        if not dict.__contains__(self, key):
+            dict.__setitem__(self, key, _wrap_value(default))
+        return dict.__getitem__(self, key)
+
+    key = ("dict", factory)
+    if key not in _COUNTING_TYPES:
+        _COUNTING_TYPES[key] = _counting(dict, {"__missing__": missing, "__setitem__": setitem, "setdefault": setdefault})
+    out = _COUNTING_TYPES[key]()
+    for k, v in orig.items():
+        dict.__setitem__(out, k, _wrap_value(v))
+    return out
 
 
-def _cdd_setitem(self, key, value):
-    _touch()
-    dict.__setitem__(self, key, _wrap_value(value))
+CountingList = counting_type(list)
 
 
-# the hub's `defaultdict(list)`: missing keys get a counting list, plain lists stored by hand are wrapped
-CountingMessages = _counting(dict, {"__missing__": _cdd_missing, "__setitem__": _cdd_setitem})
+def _plain_items(v):
+    """contents of an instrumented (or plain) container without bumping the access counter"""
+    b = _base_of(v)
+    if b is dict:
+        return list(dict.items(v))
+    return list(b.__iter__(v))
 
 CALLBACK_NAMES = frozenset(["recv_callback", "conn_lost_callback"])
 
@@ -401,14 +440,19 @@ class Execution:
 
         def make_poll(fidx, heads):
             prev = [0]
+            last: Dict[int, int] = {}        # loop head -> number of sleeps of this thread at its last visit (this frame)
 
             def ptrace(frame, event, arg):
                 if event == "line":
                     ln = frame.f_lineno
                     me.pos = (fidx, ln)
-                    if ln in heads and prev[0] >= ln:
-                        me.npolls += 1
-                        point(me, SLEEP, None)       # one unsuccessful polling round
+                    if ln in heads:
+                        if prev[0] >= ln and last.get(ln) == me.nsleeps:
+                            me.npolls += 1
+                            point(me, SLEEP, None)       # one whole round without a sleep: an unsuccessful polling round
+                        else:
+                            point(me, LINE, None)
+                        last[ln] = me.nsleeps
                     else:
                         point(me, LINE, None)
                     prev[0] = ln
@@ -737,26 +781,32 @@ class SocketWorld:
         ThreadSocket._COMM_LOGGERS.clear()
         self.ex = ex
         hub = _SocketHub()
-        if type(hub._lock) is not type(threading.Lock()):
-            raise ScheduleError("hub._lock is not a threading.Lock any more: the lock seam moved")
-        hub._lock = SchedLock(ex)
-        for attr, typ, repl in (("_open_sockets", set, CountingSet), ("_remote_sockets", set, CountingSet),
-                                ("_recv_callbacks", dict, CountingDict), ("_conn_lost_callbacks", dict, CountingDict)):
-            cur = getattr(hub, attr)
-            if type(cur) is not typ or cur:
-                raise ScheduleError(f"hub.{attr} is not an empty {typ.__name__} after construction: the seam moved")
-            setattr(hub, attr, repl())
-        if not isinstance(hub._messages, dict) or hub._messages:
-            raise ScheduleError("hub._messages is not an empty dict after construction: the seam moved")
-        hub._messages = CountingMessages()
+        # every lock and every container the hub owns is replaced, whatever it is called: the lock by the scheduler's lock,
+        # containers by access-counting subclasses of their own type (set / list / dict / defaultdict / deque)
+        lock_types = (type(threading.Lock()), type(threading.RLock()))
+        self.hub_attrs: Dict[str, Any] = {}
+        nlocks = 0
+        for attr, cur in sorted(vars(hub).items()):
+            if isinstance(cur, lock_types):
+                setattr(hub, attr, SchedLock(ex))
+                nlocks += 1
+            elif _base_of(cur) is not None:
+                if len(cur):
+                    raise ScheduleError(f"hub.{attr} is not empty after construction: the seam moved")
+                setattr(hub, attr, _wrap_value(cur))
+            else:
+                continue
+            self.hub_attrs[attr] = getattr(hub, attr)
+        if nlocks != 1:
+            raise ScheduleError(f"the hub owns {nlocks} locks, the harness models exactly one: the lock seam moved")
+        if "_messages" not in self.hub_attrs or _base_of(self.hub_attrs["_messages"]) is not dict:
+            raise ScheduleError("hub._messages (socket key -> queue of undelivered messages) is gone: the oracle's seam moved")
         self.hub = hub
-        self.hub_attrs = {a: getattr(hub, a) for a in ("_open_sockets", "_remote_sockets", "_recv_callbacks",
-                                                      "_conn_lost_callbacks", "_messages", "_lock")}
         ns = {"_SOCKET_HUB": hub, "_COMM_LOGGERS": {}}
         self.Socket = type("SchedThreadSocket", (ThreadSocket,), dict(ns))
         sns = dict(ns)
         sns["_storage"] = property(lambda o: o.__dict__["_storage"],
-                                   lambda o, v: o.__dict__.__setitem__("_storage", CountingList(v)))
+                                   lambda o, v: o.__dict__.__setitem__("_storage", _wrap_value(v)))
         self.StorageSocket = type("SchedStorageThreadSocket", (StorageThreadSocket,), sns)
         self.Broadcast = type("SchedBroadcastChannel", (ThreadBroadcastChannel,), {"_socket_class": self.Socket})
         self.keep: List[Any] = []
@@ -764,17 +814,32 @@ class SocketWorld:
 
     def fingerprint(self):
         h = self.hub
+        out = []
         for a, v in self.hub_attrs.items():
             if getattr(h, a) is not v:
                 raise ScheduleError(f"hub.{a} was rebound during an execution: shared accesses are no longer observed")
-        msgs = h._messages
-        return (frozenset(set.__iter__(h._open_sockets)), frozenset(set.__iter__(h._remote_sockets)),
-                tuple(sorted([(k, tuple(map(str, list.__iter__(v)))) for k, v in dict.items(msgs) if list.__len__(v)]))
-                if dict.__len__(msgs) else (),
-                frozenset(dict.__iter__(h._recv_callbacks)), frozenset(dict.__iter__(h._conn_lost_callbacks)))
+            b = _base_of(v)
+            if b is None:                    # the lock
+                continue
+            if b is dict:
+                rows = []
+                for k, x in dict.items(v):
+                    if _base_of(x) is not None:
+                        items = _plain_items(x)
+                        if items:            # an empty queue and a missing queue are the same state
+                            rows.append((repr(k), tuple(map(str, items))))
+                    else:
+                        rows.append((repr(k), None))     # e.g. callbacks: presence is what matters
+                out.append((a, tuple(sorted(rows))))
+            elif b is set:
+                out.append((a, frozenset(map(repr, set.__iter__(v)))))
+            else:
+                out.append((a, tuple(map(str, _plain_items(v)))))
+        return tuple(out)
 
     def queued(self):
-        return {k: list(list.__iter__(v)) for k, v in dict.items(self.hub._messages) if list.__len__(v)}
+        return {k: [x for x in _plain_items(v)] for k, v in dict.items(self.hub._messages)
+                if _base_of(v) is not None and _plain_items(v)}
 
     def teardown(self):
         self.keep.clear()
